@@ -870,7 +870,7 @@ func (s *sim) startWaiter(rev uint64) {
 		if err != nil {
 			return
 		}
-		s.checkZeroWatermark(wm)
+		s.checkZeroWatermark(wm, got)
 		// every change up to rev that is still the current version of its key must have been attempted
 		s.mu.Lock()
 		defer s.mu.Unlock()
@@ -911,7 +911,12 @@ func (s *sim) startWaiter(rev uint64) {
 // before it and has been neither retried nor touched since was in the retry queue at its end - zero is wrong. (Rounds of the same
 // virtual instant cannot be ordered against the return and are not used. Only judged without further real reconcilers and
 // refreshing, whose writes are not in the event log.)
-func (s *sim) checkZeroWatermark(wm uint64) {
+//
+// Second rule, by causality instead of time: the pair (revision, watermark) is published together once the changes up to that
+// revision have been processed and their failures queued. A failed attempt on a version whose revision is at most the returned
+// revision was therefore made before that publication; if the object has been neither retried nor touched since, it was
+// awaiting its retry when the pair was published - zero is wrong, whether or not a round boundary lies in between.
+func (s *sim) checkZeroWatermark(wm, got uint64) {
 	if wm != 0 || s.cfg.Extra > 0 || s.cfg.Refresh {
 		return
 	}
@@ -931,7 +936,8 @@ func (s *sim) checkZeroWatermark(wm uint64) {
 		for _, re := range s.roundEnds {
 			between = between || re > a.End && re < T
 		}
-		if !between {
+		covered := a.Rev != 0 && a.Rev <= got
+		if !between && !covered {
 			continue
 		}
 		cur, live := s.model[id]
@@ -949,7 +955,7 @@ func (s *sim) checkZeroWatermark(wm uint64) {
 			continue
 		}
 		s.mu.Unlock()
-		s.violate("pacing", "low-watermark-zero", "WaitUntilReconciled returned at %.3fms with low watermark 0 although the %s of id=%d (revision %d) failed at %.3fms, a later round ended before the return, and the object has neither been retried nor changed since", float64(T)/1e6, a.Op, id, a.Rev, float64(a.End)/1e6)
+		s.violate("pacing", "low-watermark-zero", "WaitUntilReconciled returned (revision %d) at %.3fms with low watermark 0 although the %s of id=%d (revision %d) failed at %.3fms (a later round ended before the return: %v; the failed version is covered by the returned revision: %v) and the object has neither been retried nor changed since", got, float64(T)/1e6, a.Op, id, a.Rev, float64(a.End)/1e6, between, covered)
 		s.mu.Lock()
 		return
 	}
